@@ -51,7 +51,7 @@ P = {
 
 NORMAL = (" All rules run on the tree after semantics-preserving normal forms (expansion of helpers that are not in the frozen inventory of the"
           " reference tree and of fourteen small reference helpers, expansion of local aliases of final attributes, folding of single-use temporaries, folding of"
-          " newly introduced named constants, binding of newly added keyword parameters nobody passes), so extract-method / inline-method / alias / temporary /"
+          " newly introduced named constants, binding of newly added keyword parameters nobody passes, hoisting of module-level state a new helper declares global), so extract-method / inline-method / alias / temporary /"
           " named-constant / added-parameter changes do not change the verdict. No repository code is imported or executed.")
 
 
@@ -61,8 +61,8 @@ EXTRA = {
     "C01": "framing decision (Content-Length x Transfer-Encoding x version), transfer-coding list, request line (every byte value per position x the permit_* switches), "
            "header block (every byte value in name/value, obs-fold, header_map modes; independent oracle) and chunk-size line (~1100 lines) are decision tables evaluated by the analyser's "
            "abstract interpreter from the function entry on enumerated inputs and compared with specification-side oracles",
-    "C02": "write()/sendfile count table, start_response state table and response_length reachability evaluated from the entry; emitted head bytes evaluated for a concrete Response",
-    "C03": "reap_workers evaluated per exit code 0..255 (halt exactly for the two boot-failure codes) incl. the reexec_pid reset; 'reap until no child' stated over CFG edges",
+    "C02": "write table on wire bytes over the response life (write; write; close with the Response methods entered and every socket write traced in order; Content-Length / chunked / neither x head sent or not), sendfile count table, start_response state table and response_length reachability evaluated from the entry; emitted head bytes evaluated for a concrete Response from the state __init__ leaves; force_close() -> start_response life-cycle (once forced, should_close() stays true); an error reply is reachable only while no head is on the wire (evaluated), and is followed by a close",
+    "C03": "reap_workers evaluated per exit code 0..255 (halt exactly for the two boot-failure codes) incl. the reexec_pid reset; 'reap until no child' stated over CFG edges; child exit status evaluated per exception class x booted; handle_chld evaluated with a tracked worker / a pending re-exec child: every delivery reaps or is deferred to the running pass (flag protocol on the CFG); manage_workers always compares the pool with the target unless a dirty flag raised by every mutator says nothing changed",
     "C04": "TERM / INT / QUIT handlers evaluated (every outcome raises StopIteration; stop(False) exactly for INT/QUIT); signals sent by stop() evaluated; kill sites found as loops over WORKERS; gevent drain loop found through its deadline local",
     "C05": "accept() error clauses of the sync and threaded worker evaluated per errno (EAGAIN / EWOULDBLOCK / ECONNABORTED swallowed, siblings agree on the rest); handle_error evaluated per exception class (status, reason, message; request object type); write_error reply evaluated byte for byte; dispatched request followed through copies of next(parser)",
     "C06": "short-buffer evaluation: from the head of the governing read loop, no buffer shorter than the compared constant lets control leave the loop without a read",
@@ -78,8 +78,10 @@ EXTRA = {
     "C19": "SafeAtoms.__init__ evaluated on sample atoms with CR / LF / quotes; write accounting table; late-error guard of the handle_request siblings",
     "C15": "header-to-environ key table, request-line split and split_request_uri evaluated on concrete inputs",
     "C16": "configuration-file location table (cli x env x default -> exactly one load) and 'which pairs of a mapping source reach cfg.set' (None included, unknown names of the file ignored) evaluated from the entry; add_argument kwargs evaluated",
+    "C17": "Pidfile life-cycle create(pid) -> unlink() evaluated on one symbolic object (a file holding the master's own pid is always removed); create() outcome table with a symbolic probed pid; the descriptor written to comes from mkstemp only",
+    "C11": "every notify() touches the heartbeat file (must-pass); timeout scan tolerates OSError and ValueError of a closed heartbeat file (evaluated); every polling loop of a worker beats",
     "C18": "'worker no longer alive => response forced to close' evaluated from the entry with `alive` snapshots",
-    "C20": "heartbeat-file chown decision evaluated over master uid/gid x configured uid/gid",
+    "C20": "heartbeat-file chown decision evaluated over master uid/gid x configured uid/gid, cold and in every two-spawn history with module-level state carried over (a memo must be keyed by the ids); the environment handed to a re-exec'ed master evaluated; identity system calls not under a swallowing except",
 }
 
 
@@ -127,7 +129,7 @@ def main():
         "checks": checks,
         "not_applicable": [],
         "notes": "All 20 properties are claimed at clause level (level 'other'): each check decides necessary structural conditions of the property and lists the behavioural remainder it does NOT decide "
-                 "in level_claimed.text and in evidence coverage.explanation. Genuine defects found: D1-D7, D9, D11-D13 repaired by 'fix:' commits in /repo; D8 and D10 recorded in known_findings.json. "
+                 "in level_claimed.text and in evidence coverage.explanation. Genuine defects found: D1-D7, D9, D11-D19 repaired by one 'fix:' commit each in /repo; D8 and D10 recorded in known_findings.json. "
                  "Exit codes: 0 held / only known findings, 1 VIOLATION, 2 ANALYSIS-ERROR (fail closed).",
     }
     with open(os.path.join(HERE, "MANIFEST.json"), "w") as f:
